@@ -97,18 +97,25 @@ func (q *Query) endConditional() {
 	}
 
 	// Strict bounds are stored as inclusive ones; a strict bound on the edge
-	// of the int64 range has no inclusive equivalent.
+	// of the int64 range has no inclusive equivalent and no integer
+	// satisfies it: the condition becomes an empty interval.
+	empty := false
 	if q.conditional[1] == "<" {
 		if low == math.MaxInt64 {
-			panic(fmt.Sprintf("%s: %s < %s", intOutOfRangeError, q.conditional[0], field))
+			empty = true
+		} else {
+			low++
 		}
-		low++
 	}
 	if q.conditional[3] == "<" {
 		if high == math.MinInt64 {
-			panic(fmt.Sprintf("%s: %s < %s", intOutOfRangeError, field, q.conditional[4]))
+			empty = true
+		} else {
+			high--
 		}
-		high--
+	}
+	if empty {
+		low, high = 1, 0
 	}
 
 	elem := q.lastCallStackElem()
